@@ -3,6 +3,8 @@ import EV.Drv.Index
 import EV.Drv.Compact
 import EV.Drv.Crash
 import EV.Drv.SyncLoop
+import EV.Drv.TxCache
+import EV.Drv.ShutdownTask
 import EV.Drv.Merkle
 import EV.Drv.Peers
 import EV.Drv.Reorg
@@ -42,6 +44,8 @@ def main (args : List String) : IO UInt32 := do
   | ["notif"] => Drv.loop stdin stdout (Drv.NotifD.stepLine 0) EV.Notif.init; return 0
   | ["notif-orig"] => Drv.loop stdin stdout (Drv.NotifD.stepLine 1) EV.Notif.init; return 0
   | ["index"] => Drv.loop stdin stdout Drv.IndexD.stepLine {}; return 0
+  | ["txcache"] => Drv.loop stdin stdout Drv.TxCacheD.stepLine {}; return 0
+  | ["shutdowntask"] => Drv.loop stdin stdout Drv.ShutdownTaskD.stepLine {}; return 0
   | ["syncloop"] => Drv.loop stdin stdout Drv.SyncLoopD.stepLine {}; return 0
   | ["crash"] => Drv.loop stdin stdout Drv.CrashD.stepLine {}; return 0
   | ["compaction"] => Drv.loop stdin stdout Drv.CompactD.stepLine {}; return 0
